@@ -360,7 +360,18 @@ def merge(c, a, b):
         return VEnum(a.cls, ITE(c, a.idx, b.idx), a.arg or b.arg)
     if isinstance(a, VPoint): return VPoint(merge(c, a.x, b.x), merge(c, a.y, b.y), merge(c, a.z, b.z))
     if isinstance(a, (VTuple, VList)):
-        if len(a.items) != len(b.items): raise Unsupported("merge sequences of different length")
+        if len(a.items) != len(b.items) or any(isinstance(i, tuple) for i in a.items + b.items):
+            if isinstance(a, VTuple): raise Unsupported("merge tuples of different length")
+            # lists of different length: common positions merged, the rest kept as guarded elements ("$g", presence, value)
+            ga = [i if isinstance(i, tuple) else ("$g", T, i) for i in a.items]
+            gb = [i if isinstance(i, tuple) else ("$g", T, i) for i in b.items]
+            out = []
+            for k in range(max(len(ga), len(gb))):
+                if k < len(ga) and k < len(gb):
+                    out.append(("$g", simp(ITE(c, ga[k][1], gb[k][1])), merge(c, ga[k][2], gb[k][2])))
+                elif k < len(ga): out.append(("$g", simp(AND(c, ga[k][1])), ga[k][2]))
+                else: out.append(("$g", simp(AND(NOT(c), gb[k][1])), gb[k][2]))
+            return VList(out)
         return type(a)([merge(c, x, y) for x, y in zip(a.items, b.items)])
     if isinstance(a, VDict):
         keys = list(dict.fromkeys(list(a.present) + list(b.present))); pres, vals = {}, {}
